@@ -508,9 +508,10 @@ impl Gen {
                 let inf = log.len() as i64;
                 let cnt = (2 + self.rng.below(3) as usize).min(log.len());
                 let pos = 1 + self.rng.below(cnt as u64 - 1) as i64;      // the later entry (0-based) whose gate we sit on
-                let d = *self.rng.pick(&[0i64, 1, 1, 2]);
-                // in-flight after entry `pos` is inf - pos - 1; gate there reads window + pos (the +1s so far)
-                let wv = (inf - pos - 1) * 1000 - d;
+                // earlier entries of the same link each earn +29 (their gate is far open) and +1; the
+                // gate of entry `pos` is G = (inf - pos - 1) * 1000 and it reads window + 30*pos in order
+                let d = 1 + self.rng.below(pos as u64 + 1) as i64;           // 1..=pos+1 : around the boundary
+                let wv = (inf - pos - 1) * 1000 - 29 * pos - d;
                 if wv > 0 {
                     let t = self.dt();
                     let seqs: Vec<u32> = log.iter().take(cnt).copied().collect();
